@@ -253,4 +253,49 @@ def runIter (sel : Sel) (ip : InitProg) (np : NextProg) (cp : CmpProg) (p : Iter
     (runLoop sel np cp p.body (totalLen m.inc + 1) { rl := rl, ex := ex }).map (fun s => (s.out, s.total))
   | _, _ => none
 
+/-! ### the mutators of `rruleset` and the decorator `_invalidates_cache` -/
+
+/-- `def inner_func(self, *args, **kwargs): rv = f(self, *args, **kwargs); self._invalidate_cache(); return rv` -/
+structure DecoratorProg where
+  callsWrapped : Bool
+  thenInvalidates : Bool
+  returnsRv : Bool
+  deriving DecidableEq, Repr, Inhabited
+
+/-- `@<decorators> def <role>(self, x): self._<appendsTo>.append(x)` -/
+structure MutatorProg where
+  role : Role
+  appendsTo : Role
+  decorated : Bool          -- the only decorator is `_invalidates_cache`
+  deriving DecidableEq, Repr, Inhabited
+
+/-- `rruleset.__init__`: `super(rruleset, self).__init__(cache)` then the four empty member lists -/
+structure SetInitProg where
+  callsBaseInit : Bool
+  emptyLists : List Role
+  deriving DecidableEq, Repr, Inhabited
+
+def mutatorOf (ps : List MutatorProg) (r : Role) : Option MutatorProg := ps.find? (fun p => p.role == r)
+
+/-- the members after the call, and whether `_invalidate_cache()` ran after the append -/
+def runMutRule (d : DecoratorProg) (ps : List MutatorProg) (r : Role) (m : Members) (x : List Int) : Option (Members × Bool) :=
+  match mutatorOf ps r with
+  | none => none
+  | some p =>
+    if !(d.callsWrapped && d.returnsRv) then none else
+    match p.appendsTo with
+    | .rrule => some ({ m with rrules := m.rrules ++ [x] }, p.decorated && d.thenInvalidates)
+    | .exrule => some ({ m with exrules := m.exrules ++ [x] }, p.decorated && d.thenInvalidates)
+    | _ => none
+
+def runMutDate (d : DecoratorProg) (ps : List MutatorProg) (r : Role) (m : Members) (x : Int) : Option (Members × Bool) :=
+  match mutatorOf ps r with
+  | none => none
+  | some p =>
+    if !(d.callsWrapped && d.returnsRv) then none else
+    match p.appendsTo with
+    | .rdate => some ({ m with rdates := m.rdates ++ [x] }, p.decorated && d.thenInvalidates)
+    | .exdate => some ({ m with exdates := m.exdates ++ [x] }, p.decorated && d.thenInvalidates)
+    | _ => none
+
 end MergePy
